@@ -374,6 +374,22 @@ def card_normal_form(card):
     return True
 
 
+def clearly_valid_card(val):
+    """(min, max) pairs the statement allows without room for interpretation: members None or
+    positive int, not both None, min <= max.  Returns the pair or None."""
+    if not isinstance(val, (tuple, list)) or len(val) != 2:
+        return None
+    for e in val:
+        if e is not None and (isinstance(e, bool) or not isinstance(e, int) or e < 1):
+            return None
+    lo, hi = val
+    if lo is None and hi is None:
+        return None
+    if lo is not None and hi is not None and lo > hi:
+        return None
+    return (lo, hi)
+
+
 def card_pair(card):
     if card is None:
         return None, None
@@ -429,6 +445,34 @@ def card_reports(U, snap):
     for (i, vid) in reported:
         if i is not None:
             return ("card.report-exact", "obj#%s: unexpected %s issue" % (i, vid))
+    # the same rule when a whole tree is validated in one go (several violating objects, deep-equal
+    # twins included, meet in one issue list); a root Section's own Properties are not visited by
+    # Validation(section) and are left to the per-object pass above
+    for r, root in enumerate(U.objs):
+        if kind_of(root) not in ("doc", "sec") or (kind_of(root) == "sec" and root.parent is not None):
+            continue
+        covered = []
+        for obj in U.subtree(root):
+            knd = kind_of(obj)
+            if knd == "sec" or (knd == "prop" and obj.parent is not root):
+                covered.append(obj)
+        if len(covered) < 2:
+            continue
+        errs = [e for e in Validation(root).errors
+                if getattr(e.validation_id, "name", str(e.validation_id)) in _CARD_ISSUE.values()]
+        for obj in covered:
+            i = U.index(obj)
+            rec = snap["objs"][i]
+            for field in _CARD_FIELDS.get(rec.get("k"), ()):
+                lo, hi = card_pair(rec[field])
+                count = len(rec[_CARD_COUNT[field]])
+                outside = (lo is not None and count < lo) or (hi is not None and count > hi)
+                n = sum(1 for e in errs if e.obj is obj and
+                        getattr(e.validation_id, "name", "") == _CARD_ISSUE[field])
+                if n != (1 if outside else 0):
+                    return ("card.report-exact", "validating the tree of obj#%d: obj#%d %s=%r count=%d "
+                            "has %d %s issue(s), expected %d" % (U.index(root), i, field, (lo, hi), count,
+                                                                  n, _CARD_ISSUE[field], 1 if outside else 0))
     return None
 
 
@@ -436,6 +480,18 @@ def mon_card(ctx):
     v = card_form(ctx.post)
     if v:
         return v
+    if ctx.name in ("set_card", "set_card2") and kind_of(ctx.args.get("x")) in ("sec", "prop"):
+        given = ctx.args.get("v") if ctx.name == "set_card" else (ctx.args.get("lo"), ctx.args.get("hi"))
+        pair = clearly_valid_card(given)
+        if pair is not None:
+            if ctx.raised:
+                return ("card.accepts-valid", "assignment of the valid cardinality %r raised %s: %s" %
+                        (pair, ctx.outcome[1], ctx.outcome[2]))
+            field = {"val": "val_card", "sec": "sec_card", "prop": "prop_card"}[ctx.op["which"]]
+            rec = ctx.post["objs"][ctx.U.index(ctx.args["x"])]
+            if field in rec and card_pair(rec[field]) != pair:
+                return ("card.accepts-valid", "assignment of the valid cardinality %r stored %r" %
+                        (pair, card_pair(rec[field])))
     if ctx.name in ("set_card", "set_card2") and ctx.raised:
         if ctx.outcome[1] != "ValueError" and "wrong_type" not in ctx.labels:
             return ("card.refusal-keeps", "%s raised %s: %s" % (ctx.name, ctx.outcome[1],
